@@ -171,6 +171,44 @@ def complete_charges(qd, L, qL):
     return out, uniform
 
 
+def reduced_charges(rng, qd, L, qL, Dmax):
+    """random sub-profile of the complete manifold of sector qL with at most Dmax states per bond such that a
+    generic block-sparse state has full Schmidt rank in every charge block: multiplicities m_i(q) are clipped to the
+    fixed point of m_i(q) <= sum_s m_{i-1}(q-s), m_i(q) <= sum_s m_{i+1}(q+s)"""
+    comp, _ = complete_charges(qd, L, qL)
+    for attempt in range(20):
+        m = []
+        for i in range(L + 1):
+            full = {}
+            for q in comp[i]:
+                full[q] = full.get(q, 0) + 1
+            if i in (0, L):
+                m.append(dict(full))
+                continue
+            cur = {q: int(rng.integers(0, k + 1)) for q, k in full.items()}
+            if sum(cur.values()) == 0:
+                q = sorted(full)[int(rng.integers(len(full)))]
+                cur[q] = 1
+            # trim to Dmax
+            while sum(cur.values()) > Dmax:
+                qs = [q for q in sorted(cur) if cur[q] > 0]
+                cur[qs[int(rng.integers(len(qs)))]] -= 1
+            m.append(cur)
+        changed = True
+        while changed:
+            changed = False
+            for i in range(1, L):
+                for q in m[i]:
+                    lim = min(sum(m[i - 1].get(q - int(s), 0) for s in qd), sum(m[i + 1].get(q + int(s), 0) for s in qd))
+                    if m[i][q] > lim:
+                        m[i][q] = lim
+                        changed = True
+        if all(sum(mi.values()) > 0 for mi in m):
+            return [[int(q) for q in sorted(mi) for _ in range(mi[q])] for mi in m]
+    # fall back: a single path (bond dimension one)
+    return state_charges(rng, qd, L, [1] * (L + 1), qL)
+
+
 def rand_state(rng, qd, qD, scale=1.0):
     psi = ptn.MPS(list(qd), [list(q) for q in qD], fill='random', rng=rng)
     if len(psi.A):
@@ -257,8 +295,19 @@ def choose_state(rng, qd, L, bstyle, Dmax, need_uniform=False):
             cands.append((q, qD, uni))
         if not cands:
             return None
+        nL = count_tables(qd, L)[L]
+        big = [c for c in cands if nL[c[0]] >= 2]
+        if big and rng.random() < 0.9:
+            cands = big
         q, qD, uni = cands[int(rng.integers(len(cands)))]
         return dict(qD=qD, qL=int(q), complete=True, uniform=bool(uni))
-    qL = int(secs[int(rng.integers(len(secs)))])
+    # mostly sectors of dimension >= 2 (in a one-dimensional sector H acts as a number)
+    n = count_tables(qd, L)[L]
+    big = [q for q in secs if n[q] >= 2]
+    pool = big if (big and rng.random() < 0.9) else secs
+    qL = int(pool[int(rng.integers(len(pool)))])
+    if bstyle in ('reduced', 'reduced2'):
+        return dict(qD=reduced_charges(rng, qd, L, qL, 2 if bstyle == 'reduced2' else Dmax), qL=qL,
+                    complete=False, uniform=False)
     Ds = small_profile(rng, L, d, Dmax, bstyle)
     return dict(qD=state_charges(rng, qd, L, Ds, qL), qL=qL, complete=False, uniform=False)
